@@ -139,10 +139,22 @@ func ruleEntryPresence(c *Ctx) {
 				return testsIndex(x.X, depth+1)
 			}
 		case *ssa.Phi:
-			// a boolean computed from the index earlier (hasValue := index == 2; ...)
+			// a boolean computed from the index earlier (hasValue := index == 2 || …): either an
+			// edge value is the test, or the test decides which edge is taken (short-circuit form)
 			for _, e := range x.Edges {
 				if testsIndex(e, depth+1) {
 					return true
+				}
+			}
+			stop := x.Block().Idom()
+			for _, pr := range x.Block().Preds {
+				for d := pr; d != nil; d = d.Idom() {
+					if ifi, ok := d.Instrs[len(d.Instrs)-1].(*ssa.If); ok && testsIndex(ifi.Cond, depth+1) {
+						return true
+					}
+					if d == stop {
+						break
+					}
 				}
 			}
 		}
@@ -1006,4 +1018,246 @@ func ruleWalkerLookup(c *Ctx) {
 		}
 	}
 	c.Floor("T.walker-lookup", 2)
+}
+
+// ---------------------------------------------------------------------------
+// X.countloop: a reader that reads a leading element count decodes exactly
+// that many elements: the loop that consumes the entries is bounded by the
+// count (directly, or through a slice that was sized by it), never by the
+// length the target happened to have.
+
+func ruleCountLoop(c *Ctx) {
+	p := c.P
+	names := []string{"plenccodec.WTLengthSliceWrapper.Read", "plenccodec.MapCodec.Read", "plenccodec.JSONArrayCodec.Read", "plenccodec.JSONMapCodec.Read",
+		"plenccodec.Descriptor.readAsSlice", "plenccodec.Descriptor.readAsJSON", "plenccore.Skip"}
+	for _, name := range names {
+		f := p.ssaFunc(name)
+		if f == nil {
+			c.Oblige("X.countloop", false, token.NoPos, name, "function", "not found", nil)
+			continue
+		}
+		// leading counts: first result of ReadVarUint applied to the data parameter itself
+		var counts []ssa.Value
+		for _, b := range f.Blocks {
+			for _, in := range b.Instrs {
+				cn, call := staticCalleeName(in)
+				if call == nil || cn != "plenccore.ReadVarUint" {
+					continue
+				}
+				if prm, ok := call.Common().Args[0].(*ssa.Parameter); !ok || !isByteSlice(prm.Type()) {
+					continue
+				}
+				for _, r := range *call.Referrers() {
+					if ex, ok := r.(*ssa.Extract); ok && ex.Index == 0 {
+						counts = append(counts, ex)
+					}
+				}
+			}
+		}
+		if len(counts) == 0 {
+			c.Oblige("X.countloop", false, f.Pos(), name, "leading count", "no ReadVarUint(data) found", nil)
+			continue
+		}
+		var isCount func(v ssa.Value, depth int) bool
+		var lenIsCount func(v ssa.Value, depth int) bool
+		isCount = func(v ssa.Value, depth int) bool {
+			if depth > 12 {
+				return false
+			}
+			for _, cv := range counts {
+				if v == cv {
+					return true
+				}
+			}
+			switch x := v.(type) {
+			case *ssa.Convert:
+				return isCount(x.X, depth+1)
+			case *ssa.ChangeType:
+				return isCount(x.X, depth+1)
+			case *ssa.Phi:
+				for _, e := range x.Edges {
+					if !isCount(e, depth+1) {
+						return false
+					}
+				}
+				return len(x.Edges) > 0
+			case *ssa.Call:
+				if b, ok := x.Common().Value.(*ssa.Builtin); ok && b.Name() == "len" {
+					return lenIsCount(x.Common().Args[0], depth+1)
+				}
+			case *ssa.UnOp:
+				// h.Len where the function stored the count into it
+				if fa, ok := x.X.(*ssa.FieldAddr); ok && fieldName(fa) == "Len" {
+					okAny := false
+					for _, b := range f.Blocks {
+						for _, in := range b.Instrs {
+							if st, ok := in.(*ssa.Store); ok {
+								if fa2, ok := st.Addr.(*ssa.FieldAddr); ok && fieldName(fa2) == "Len" && fa2.X == fa.X {
+									if !isCount(st.Val, depth+1) {
+										return false
+									}
+									okAny = true
+								}
+							}
+						}
+					}
+					return okAny
+				}
+			}
+			return false
+		}
+		lenIsCount = func(v ssa.Value, depth int) bool {
+			if depth > 12 {
+				return false
+			}
+			switch x := v.(type) {
+			case *ssa.MakeSlice:
+				return isCount(x.Len, depth+1)
+			case *ssa.Slice:
+				return x.High != nil && isCount(x.High, depth+1) && (x.Low == nil || isZeroSSA(x.Low))
+			case *ssa.Phi:
+				for _, e := range x.Edges {
+					if !lenIsCount(e, depth+1) {
+						return false
+					}
+				}
+				return len(x.Edges) > 0
+			case *ssa.ChangeType:
+				return lenIsCount(x.X, depth+1)
+			}
+			return false
+		}
+		n := 0
+		for h, body := range loopsOf(f) {
+			// entry-consuming loop: the body slices the data parameter
+			reads := false
+			for bb := range body {
+				for _, in := range bb.Instrs {
+					if sl, ok := in.(*ssa.Slice); ok {
+						if prm, ok := sl.X.(*ssa.Parameter); ok && isByteSlice(prm.Type()) {
+							reads = true
+						}
+					}
+				}
+			}
+			if !reads {
+				continue
+			}
+			// must be dominated by the count read
+			dom := false
+			for _, cv := range counts {
+				cb := cv.(*ssa.Extract).Block()
+				if cb == h || cb.Dominates(h) {
+					dom = true
+				}
+			}
+			if !dom {
+				continue
+			}
+			// the loop's exit tests: If instructions in the body with a successor outside it, comparing an induction value with a bound
+			var bounds []ssa.Value
+			var at token.Pos
+			for bb := range body {
+				ifi, ok := bb.Instrs[len(bb.Instrs)-1].(*ssa.If)
+				if !ok {
+					continue
+				}
+				if body[bb.Succs[0]] && body[bb.Succs[1]] {
+					continue
+				}
+				bo, ok := ifi.Cond.(*ssa.BinOp)
+				if !ok {
+					continue
+				}
+				switch bo.Op {
+				case token.LSS, token.GTR, token.LEQ, token.GEQ, token.NEQ:
+				default:
+					continue
+				}
+				// which side is the induction variable (a φ of the header, or derived from one)?
+				isInd := func(v ssa.Value) bool {
+					for i := 0; i < 4; i++ {
+						switch x := v.(type) {
+						case *ssa.Phi:
+							return x.Block() == h
+						case *ssa.Convert:
+							v = x.X
+							continue
+						case *ssa.BinOp:
+							v = x.X
+							continue
+						}
+						break
+					}
+					return false
+				}
+				// a down-counting loop: the header φ starts at the count and is compared with zero
+				downFrom := func(ind, bound ssa.Value) (ssa.Value, bool) {
+					phi, ok := ind.(*ssa.Phi)
+					if !ok || phi.Block() != h || !isZeroSSA(bound) {
+						return nil, false
+					}
+					for i, pr := range h.Preds {
+						if !body[pr] {
+							return phi.Edges[i], true
+						}
+					}
+					return nil, false
+				}
+				switch {
+				case isInd(bo.X) && !isInd(bo.Y):
+					if init, ok := downFrom(bo.X, bo.Y); ok {
+						bounds = append(bounds, init)
+					} else {
+						bounds = append(bounds, bo.Y)
+					}
+					at = bo.Pos()
+				case isInd(bo.Y) && !isInd(bo.X):
+					if init, ok := downFrom(bo.Y, bo.X); ok {
+						bounds = append(bounds, init)
+					} else {
+						bounds = append(bounds, bo.X)
+					}
+					at = bo.Pos()
+				}
+			}
+			if len(bounds) == 0 {
+				continue // exit decided by the data offset (field loops): not a counted loop
+			}
+			// an "offset < len(data)"-style bound is a data loop, not an element-count loop
+			counted := false
+			okAll := true
+			for _, bd := range bounds {
+				if call, ok := bd.(*ssa.Call); ok {
+					if b, ok := call.Common().Value.(*ssa.Builtin); ok && b.Name() == "len" {
+						if prm, ok := call.Common().Args[0].(*ssa.Parameter); ok && isByteSlice(prm.Type()) {
+							continue
+						}
+					}
+				}
+				counted = true
+				if !isCount(bd, 0) {
+					okAll = false
+				}
+			}
+			if !counted {
+				continue
+			}
+			n++
+			if at == token.NoPos {
+				at = f.Pos()
+			}
+			c.Oblige("X.countloop", okAll, at, name, "the entry loop is bounded by the count read from the data",
+				"a decoded slice, array or map holds exactly the encoded elements: the loop that consumes the entries must run count times (the count itself, or the length of a slice made or re-sliced to it) - bounded by the length of whatever the target already held, a shorter target drops elements and returns too few bytes (the enclosing reader then mis-parses the rest) and a longer one reads past the entries", nil)
+		}
+		if n == 0 {
+			c.Oblige("X.countloop", false, f.Pos(), name, "counted entry loop", "no loop consuming entries under a leading count found: the rule no longer sees the code it was written for", nil)
+		}
+	}
+	c.Floor("X.countloop", 7)
+}
+
+func isZeroSSA(v ssa.Value) bool {
+	k, ok := v.(*ssa.Const)
+	return ok && k.Value != nil && k.Value.ExactString() == "0"
 }
